@@ -57,7 +57,9 @@ EncTxn(t) == LET body == EncFields(t.fields)
              IN <<t.flags, t.isReply>> \o U16(t.type) \o t.id \o t.err \o U32(sz) \o U32(sz)
                 \o U16(Len(t.fields)) \o body
 
-(* "User Name with Info (300)": User ID(2) Icon ID(2) User flags(2) User name size(2) User name(size) *)
+(* "User Name with Info (300)": User ID(2) Icon ID(2) User flags(2) User name size(2) User name(size).
+   The object may hold Icon / Flags as a 4-byte integer (fields iconw / flagsw = 4, as some clients send Icon ID
+   (104)); the wire form is always the 2 low-order bytes - u.icon / u.flags are those 16-bit values. *)
 EncUser(u) == U16(u.id) \o U16(u.icon) \o U16(u.flags) \o U16(Len(u.name)) \o u.name
 
 (* List Users (348) reply, one Data(101) field per account - de-facto (348/349 are later than the 1.9 document):
